@@ -33,16 +33,15 @@ import dns.tsig
 BOUNDS = (
     "All 9 HMAC TSIG algorithms (md5, sha1, sha224, sha256, sha384, sha512 and the fixed "
     "truncations sha256-128, sha384-192, sha512-256) in every clause. Exhaustive parts: every "
-    "single-bit flip of whole signed messages of ~110-260 octets (quick: 1 request + 1 response per "
-    "algorithm plus a padded/compressed-key-name/other-data message for 5 algorithms; thorough: 7 messages "
-    "per algorithm), every unsigned subset of the intermediate envelopes of "
+    "single-bit flip of whole signed messages of ~110-260 octets (quick: 1 request + 1 response + 1 "
+    "padded/compressed-key-name/other-data message per algorithm; thorough: 7 messages per algorithm), every unsigned subset of the intermediate envelopes of "
     "multi-message exchanges of 2..5 (quick) / 2..7 (thorough) envelopes, the time window at offsets "
     "{-(f+1),-f,-1,0,1,f,f+1} for fudge f in {0,1,2,300,65535} with 32- and 48-bit signing times, "
     "TSIG error codes 1..4095 (quick: 1..64 + specials), every MAC truncation length below max(10, half), "
     "every TSIG position other than last in ANSWER/AUTHORITY/ADDITIONAL for 0..3 additional records. "
     "Seeded parts: message bodies (library-rendered with compression, EDNS, padding; and independently "
     "encoded), key names with case mix and odd octets, secrets of 1..200 octets, other-data, original ids; "
-    "quick 80 / thorough 1500 seeds per algorithm for direct sign, 12 / 120 for the message flows. "
+    "quick 150 / thorough 1500 seeds per algorithm for direct sign, 20 / 120 for the message flows. "
     "GSS-TSIG is out of scope (no gssapi). HMAC itself is trusted (A-crypto). The TTL field of the "
     "TSIG RR is treated as not authenticated (the library digests the constant 0 and ignores the "
     "received TTL, as the DESIGN oracle does); the message ID is not authenticated (original id is)."
@@ -870,7 +869,7 @@ def run(R):
     quick = R.quick
 
     # ---------------------------------------------------------------- 1. dns.tsig.sign direct
-    per_alg = 80 if quick else 1500
+    per_alg = 150 if quick else 1500
     for alg in ALG_LIST:
         if R.deadline():
             break
@@ -892,7 +891,7 @@ def run(R):
 
     # ---------------------------------------------------------------- 2. message flows
     forms = ("key", "dict_key", "dict_bytes", "callable")
-    per_alg = 12 if quick else 120
+    per_alg = 20 if quick else 120
     for alg in ALG_LIST:
         if R.deadline():
             break
@@ -936,7 +935,7 @@ def run(R):
                         sample={"alg": _algname(alg), "fudge": fudge, "offset": d})
 
     # ---------------------------------------------------------------- 4. wrong key / name / algorithm / request MAC / error / truncation
-    reps = 2 if quick else 30
+    reps = 4 if quick else 30
     for alg in ALG_LIST:
         if R.deadline():
             break
@@ -1096,7 +1095,7 @@ def run(R):
 
     # ---------------------------------------------------------------- 7. multi-message sequences
     maxn = 5 if quick else 7
-    seeds = 1 if quick else 4
+    seeds = 2 if quick else 4
     for ai, alg in enumerate(ALG_LIST):
         if R.deadline():
             break
@@ -1105,8 +1104,6 @@ def run(R):
             for sub in range(1 << inter):
                 if R.deadline():
                     break
-                if quick and n == maxn and (sub + ai) % 3:
-                    continue
                 for s in range(seeds):
                     key = gen_key(rng, alg)
                     mask = [True] + [not (sub >> i) & 1 for i in range(inter)] + [True]
@@ -1144,7 +1141,7 @@ def run(R):
     for ai, alg in enumerate(ALG_LIST):
         kinds = ["req_own", "resp_lib"]
         if quick:
-            kinds += [("req_lib_compress", "req_lib_pad", "resp_own_other")[ai % 3]] if ai % 2 == 0 else []
+            kinds += [("req_lib_compress", "req_lib_pad", "resp_own_other")[ai % 3]]
         else:
             kinds += ["req_lib_pad", "req_lib_compress", "resp_own_other", "req_own", "resp_lib"]
         for kd in kinds:
